@@ -363,10 +363,13 @@ def shrink(mod, case, oracle, tier, guards, budget=1500):
         return f is not None and f[0] == oracle
 
     runs = [0]
+    t_end = time.time() + float(os.environ.get("VERIF_SHRINK_SECONDS", "90"))
 
     def test(c):
+        # shrinking is best effort: bounded by runs AND by wall time (a hanging mutant makes every trial expensive); running out of
+        # either just means the replay file is less minimal, it never changes the verdict
         runs[0] += 1
-        return runs[0] <= budget and fails(c)
+        return runs[0] <= budget and time.time() < t_end and fails(c)
 
     best = copy.deepcopy(case)
     if not fails(best):
